@@ -2,6 +2,7 @@ package tools
 
 import (
 	"bytes"
+	"encoding/hex"
 	"encoding/json"
 	"fmt"
 	"os"
@@ -26,7 +27,8 @@ import (
 type HexCase struct {
 	Text    string `json:"text"`
 	Want    []byte `json:"want"`
-	Corrupt bool   `json:"corrupt"` // the text contains one non-hex, non-space character outside comments
+	Corrupt bool   `json:"corrupt"`        // the text contains one non-hex, non-space character outside comments
+	Bulk    string `json:"bulk,omitempty"` // kind of the long line, if the text has one
 }
 
 func oracleHex(c *HexCase) (f *ev.Failure) {
@@ -38,15 +40,15 @@ func oracleHex(c *HexCase) (f *ev.Failure) {
 	got, err := prototest.ParseAnnotatedHex(c.Text)
 	if c.Corrupt {
 		if err == nil {
-			return ev.Failf("C20/hex-accepts-garbage", "text with a non-hex character outside comments was accepted: %q -> %x", c.Text, got)
+			return ev.Failf("C20/hex-accepts-garbage", "text with a non-hex character outside comments was accepted: %.300q -> %.64x", c.Text, got)
 		}
 		return nil
 	}
 	if err != nil {
-		return ev.Failf("C20/hex-rejects-valid", "ParseAnnotatedHex(%q): %v", c.Text, err)
+		return ev.Failf("C20/hex-rejects-valid", "ParseAnnotatedHex(%.300q) [%d bytes of text]: %v", c.Text, len(c.Text), err)
 	}
 	if !bytes.Equal(got, c.Want) {
-		return ev.Failf("C20/hex-wrong-bytes", "ParseAnnotatedHex(%q) = %x, the digits outside comments denote %x", c.Text, got, c.Want)
+		return ev.Failf("C20/hex-wrong-bytes", "ParseAnnotatedHex(%.300q) [%d bytes of text] = %d bytes %.64x, the digits outside comments denote %d bytes %.64x", c.Text, len(c.Text), len(got), got, len(c.Want), c.Want)
 	}
 	return nil
 }
@@ -73,19 +75,16 @@ func genComment(t *rapid.T) string {
 	}
 }
 
-func genHexCase(t *rapid.T) *HexCase {
+// genHexPart renders 0..40 random bytes with random digit case, whitespace, line breaks and comments.
+func genHexPart(t *rapid.T, sb *strings.Builder) []byte {
 	data := rapid.SliceOfN(rapid.Byte(), 0, 40).Draw(t, "data")
-	var sb strings.Builder
-	lines, comments := 0, 0
 	// leading comment-only / blank lines
 	for i := rapid.IntRange(0, 2).Draw(t, "lead"); i > 0; i-- {
 		sb.WriteString(genWS(t, "lws"))
 		if rapid.Bool().Draw(t, "leadc") {
 			sb.WriteString(genComment(t))
-			comments++
 		}
 		sb.WriteString("\n")
-		lines++
 	}
 	for i, b := range data {
 		sb.WriteString(genWS(t, "ws1"))
@@ -103,18 +102,65 @@ func genHexCase(t *rapid.T) *HexCase {
 			switch rapid.IntRange(0, 5).Draw(t, "eol") {
 			case 0:
 				sb.WriteString("\n")
-				lines++
 			case 1:
 				sb.WriteString(genComment(t) + "\n")
-				comments++
-				lines++
 			case 2:
 				sb.WriteString("\r\n")
-				lines++
 			}
 		}
 	}
-	c := &HexCase{Text: sb.String(), Want: data}
+	return data
+}
+
+// bulkLens: physical line lengths around the buffer sizes text readers commonly use (4 KiB, 64 KiB) and beyond.
+var bulkLens = []int{1000, 4095, 4096, 4097, 65534, 65535, 65536, 65537, 70000, 131072, 200001}
+
+// genBulkLine writes one long physical line of about n bytes (hex digits, a comment, a whitespace run or a
+// comment-only line) and returns the bytes it denotes.
+func genBulkLine(t *rapid.T, sb *strings.Builder) (data []byte, kind string) {
+	n := rapid.SampledFrom(bulkLens).Draw(t, "bulklen")
+	seed := rapid.Byte().Draw(t, "bulkseed")
+	kind = rapid.SampledFrom([]string{"hex", "comment", "whitespace", "comment-only"}).Draw(t, "bulkkind")
+	switch kind {
+	case "hex":
+		for i := 0; i < n/2; i++ {
+			data = append(data, seed+byte(i*7))
+		}
+		sb.WriteString(hex.EncodeToString(data))
+		if n%2 == 1 {
+			sb.WriteString(" ")
+		}
+	case "comment":
+		data = []byte{seed}
+		fmt.Fprintf(sb, "%02x ;", seed)
+		sb.WriteString(strings.Repeat("c0 ", n/3))
+	case "whitespace":
+		data = []byte{seed, seed ^ 0xff}
+		fmt.Fprintf(sb, "%02x", seed)
+		sb.WriteString(strings.Repeat(" ", n-4))
+		fmt.Fprintf(sb, "%02X", seed^0xff)
+	case "comment-only":
+		sb.WriteString(";" + strings.Repeat("-", n-1))
+	}
+	sb.WriteString("\n")
+	return data, kind
+}
+
+func genHexCase(t *rapid.T) *HexCase {
+	var sb strings.Builder
+	data := genHexPart(t, &sb)
+	bulk := ""
+	if rapid.IntRange(0, 9).Draw(t, "bulk") == 0 {
+		// one long line between two ordinary parts
+		if s := sb.String(); s != "" && !strings.HasSuffix(s, "\n") {
+			sb.WriteString("\n")
+		}
+		var bd []byte
+		bd, bulk = genBulkLine(t, &sb)
+		data = append(data, bd...)
+		data = append(data, genHexPart(t, &sb)...)
+	}
+	c := &HexCase{Text: sb.String(), Want: data, Bulk: bulk}
 	if c.Want == nil {
 		c.Want = []byte{}
 	}
@@ -524,7 +570,7 @@ func sanitizeStrings(c *DumpCase) {
 	}
 }
 
-const ruleC20 = "(hex) random byte strings rendered with random digit case, spaces/tabs/CR anywhere incl. between the two digits of a byte, line breaks at byte boundaries, ';' comments containing arbitrary text incl. ';' and hex digits, comment-only lines; 1 in 4 corrupted with one non-hex non-space character outside comments (must be rejected); oracle: ParseAnnotatedHex(render(b)) == b. " +
+const ruleC20 = "(hex) random byte strings rendered with random digit case, spaces/tabs/CR anywhere incl. between the two digits of a byte, line breaks at byte boundaries, ';' comments containing arbitrary text incl. ';' and hex digits, comment-only lines, 1 in 10 with one physical line of 1000 .. 200001 bytes (sizes around 4 KiB and 64 KiB; hex digits, a long comment, a whitespace run or a comment-only line) between two ordinary parts; 1 in 4 corrupted with one non-hex non-space character outside comments (must be rejected); oracle: ParseAnnotatedHex(render(b)) == b. " +
 	"(protodump) generated wire sequences (nesting depth <= 3, all four wire types, numbers up to 2^29-1), 1 in 4 mutated, x random disjoint -expand/-strings path sets over present and absent paths; dumpProto (working-tree source compiled into the harness) and the built binary (-file, stdin pipe, stdin file) are read by a tolerant reader into (depth, number, wire type, value) entries == refwire walk recursing into exactly the expand paths; malformed => error, never a panic. " +
 	"non-trivial = hex text with >= 1 comment and >= 1 line break; dump input with >= 1 length-delimited field and >= 1 path; distinct by text / (input, paths)"
 
@@ -541,9 +587,16 @@ func TestC20(t *testing.T) {
 		} else {
 			rec.Class("hex/valid")
 		}
+		if c.Bulk != "" {
+			rec.Class("hex/long-line/" + c.Bulk)
+		}
 		if strings.Contains(c.Text, ";") && strings.Contains(c.Text, "\n") {
 			rec.NonTrivial(ev.FP("hex", c.Text))
-			rec.Sample("hex", c)
+			if c.Bulk == "" {
+				rec.Sample("hex", c)
+			} else {
+				rec.Sample("hex-long-line", map[string]any{"bulk": c.Bulk, "text_len": len(c.Text), "want_len": len(c.Want), "corrupt": c.Corrupt, "text_head": fmt.Sprintf("%.120q", c.Text)})
+			}
 		}
 		rec.Check(rt, "hex", c, oracleHex(c))
 	})
